@@ -9,6 +9,7 @@ import (
 
 	vast "verif/ast"
 	"verif/gen"
+	"verif/mut"
 	"verif/ref/rtypes"
 	"verif/ref/typing"
 	"verif/sup"
@@ -37,7 +38,7 @@ func checkC10() int {
 	c := NewCheck("C10")
 	pool := newPool()
 	envs := genEnvs(c, c.pick(2500, 50000), 10, 45)
-	c.Rule = "G2: random type-definition environments (aliases, mutual recursion, shifts, per-definition annotations in all 12 spellings, shuffled order), 45% with one injected defect (duplicate label, undefined name, alias cycle of length 1..5, invalid mode, illegal/flipped shift, changed or erased annotation, duplicate definition, annotation contradicting a shift, reference of another mode); oracle R3: Grits accepts the program consisting of the definitions iff R3 finds them well formed; program level: G1 programs and their mode / type-definition mutants (incl. uncalled recoloured copies; 40% of the texts with head mode annotations omitted), oracle R1: an accepted program has no ill-formed written type, and unfolding an accepted name needs at most |D|+1 steps and ends in a structural type; non-trivial = distinct environment with >= 3 definitions"
+	c.Rule = "G2: random type-definition environments (aliases, mutual recursion, shifts, per-definition annotations in all 12 spellings, shuffled order), 45% with one injected defect (duplicate label, undefined name, alias cycle of length 1..5, invalid mode, illegal/flipped shift, changed or erased annotation, duplicate definition, annotation contradicting a shift, reference of another mode); oracle R3: Grits accepts the program consisting of the definitions iff R3 finds them well formed, and unfolding an accepted name needs at most |D|+1 steps and ends in a structural type; program level: G1 programs and their mode / type-definition mutants (incl. uncalled recoloured copies; 40% of the texts with head mode annotations omitted), oracle R1: an accepted program has no ill-formed written type; non-trivial = distinct environment with >= 3 definitions"
 	c.Assumptions = []string{"R3's rules are the sentence in the statement of C10/C16 (definedness, distinct labels, contractivity, valid modes, uniform modes up to shifts, legal shifts, directional inference)"}
 	jobs := make([]sup.Job, len(envs))
 	for i, e := range envs {
@@ -505,7 +506,7 @@ func checkC16() int {
 func checkC15() int {
 	c := NewCheck("C15")
 	pool := newPool()
-	c.Rule = "types: every definition of G2 well-formed environments (left-nested products and arrows, shifts in operand position, choices) is printed with SessionType.String() and parsed back as 'type rt = <head mode> <printed>'; the two Grits type values must be structurally equal, modes included. terms: every function body of G1 programs (written with self, with and without explicit polarities) is printed with Form.String() and parsed back; the two Form trees are compared by a reflective walk (identifiers, self flags, polarities, labels, shape), not by EqualForm; non-trivial = distinct definition / function body compared"
+	c.Rule = "types: every definition of G2 well-formed environments (left-nested products and arrows, shifts in operand position, choices), plus deeply nested operator trees (depth 3..6), is printed with SessionType.String() and parsed back as 'type rt = <head mode> <printed>'; the two Grits type values must be structurally equal, modes included. terms: every function body of G1 programs and of their polarity mutants (written with self, with and without explicit polarities on every kind of name position) is printed with Form.String() and parsed back; the two Form trees are compared by a reflective walk (identifiers, self flags, polarities, labels, shape), not by EqualForm; non-trivial = distinct definition / function body compared"
 	c.Assumptions = []string{"the comparison of the two Grits values runs in the worker next to the calls it judges"}
 	envs := genEnvs(c, c.pick(800, 25000), 15, 0)
 	var jobs []sup.Job
@@ -516,11 +517,37 @@ func checkC15() int {
 			src = append(src, e.text)
 		}
 	}
+	// deeply nested operator trees (depth 3..6: binary operators and shifts in every operand
+	// position), where bracket placement is decided
+	{
+		r := rand.New(rand.NewSource(subSeed(c.Seed, 1515)))
+		deep := 0
+		for deep < c.pick(1500, 30000) {
+			defs := rtypes.GenDeepDefs(r)
+			if an := rtypes.Analyze(defs); !an.WF {
+				continue
+			}
+			deep++
+			t := rtypes.DefsText(defs)
+			jobs = append(jobs, sup.Job{Kind: "roundtrip", Text: t})
+			src = append(src, t)
+		}
+	}
 	nTypes := len(jobs)
 	cases := genCases(c, c.pick(150, 3000), 15, func(i int) *genOpt { return polOpt(i) })
+	mr := rand.New(rand.NewSource(subSeed(c.Seed, 1516)))
 	for _, pc := range cases {
 		jobs = append(jobs, sup.Job{Kind: "termrt", Text: pc.Text})
 		src = append(src, pc.Text)
+		// explicit polarities (either sign: printing does not depend on typing) on payloads,
+		// continuations, arguments and on the binders of recv / split / case / cut
+		for k := 0; k < 3; k++ {
+			if m := mut.Mutate(pc.P, mr, "polarity"); m != nil {
+				t := m.P.Text()
+				jobs = append(jobs, sup.Job{Kind: "termrt", Text: t})
+				src = append(src, t)
+			}
+		}
 	}
 	outs := pool.Run(jobs, nil)
 	types, terms, leftNested := 0, 0, 0
